@@ -15,6 +15,7 @@ CONTRACTS = {
     "C07": "must ⊆ reported ⊆ may for the 4 vulnerability detectors (DESIGN.md §8 C07)",
     "C08": "never / always / only clauses of the 4 mutability detectors (DESIGN.md §8 C08)",
     "C09": "version-gated detectors follow the (major, minor, patch) triple of 'pragma solidity' (DESIGN.md §8 C09)",
+    "C02-LOC": "a reported location is the first byte of the construct named under `loc` in DESIGN.md §8, not of one of its sub-nodes",
     "C19": "findings of a file == union of the findings of its top-level items analysed alone",
 }
 
